@@ -248,6 +248,30 @@ Proof.
   repeat constructor; cbn; intros; f_equal; lia.
 Qed.
 
+(* ---- results kept by the caller: with copy semantics (each call hands out its own buffer) the array kept from call j still
+   equals the single-process result of call j after ANY later calls on the same object (any sizes, any interleavings) *)
+Theorem C15_kept_results_survive_later_calls : forall (V : Type) (d : V) (calls : list (call V)),
+  Forall call_ok calls ->
+  forall j k, nth_error calls j = Some k -> nth_error (history_copy d calls) j = Some (call_sp k).
+Proof. intros V. exact (@kept_results_copy V). Qed.
+Print Assumptions C15_kept_results_survive_later_calls.
+(* result buffers cached per number of rows and handed out as views are refuted: two calls of 3 rows each; after the second
+   call the array kept from the first holds the second call's result *)
+Theorem C15_cached_result_buffers_refuted : exists (k1 k2 : call Z) d,
+  call_ok k1 /\ call_ok k2 /\ handle k1 = handle k2 /\
+  history_cached d [k1] (handle k1) = Some (call_sp k1) /\
+  history_cached d [k1; k2] (handle k1) = Some (call_sp k2) /\ call_sp k2 <> call_sp k1.
+Proof.
+  exists (mk_cfg 3 1 None Static 64, 1%nat, repeat 0%nat 11, fun i => 10 * i),
+         (mk_cfg 3 1 None Static 64, 1%nat, repeat 0%nat 11, fun i => i + 7), (-1).
+  assert (Hok : forall f : Z -> Z, call_ok (mk_cfg 3 1 None Static 64, 1%nat, repeat 0%nat 11, f)).
+  { intros f. split; [unfold wf; cbn; lia|]. split; [lia|]. split.
+    - apply Forall_forall. intros w Hw. apply repeat_spec in Hw. lia.
+    - intros w Hw. assert (w = 0%nat) as -> by lia. vm_compute. reflexivity. }
+  split; [apply Hok|]. split; [apply Hok|]. vm_compute. repeat split; discriminate.
+Qed.
+Print Assumptions C15_cached_result_buffers_refuted.
+
 (* ---- layout independence: the array arguments are flattened in C (logical index) order, scheduled as flat rows and the
    flat result is reshaped in C order; then element (r, c0) of the multi-process result is g of the input VALUES at (r, c0),
    under every interleaving - nothing else about the inputs (strides, memory order) enters *)
